@@ -222,3 +222,42 @@ extern "C" int nested_assign()
   vf_reach("end");
   return 0;
 }
+
+// a Variant copied into the container obtained from its own mutable accessor: the stored element is the value the Variant
+// had (a list that does not contain itself), and every payload is released at the end
+extern "C" int self_nesting()
+{
+  {
+    unsigned c = vf_pick(3);
+    Variant v;
+    if(c == 0)
+    {
+      Variant one(1); v.toList().append(one);
+      v.toList().append(v);                                   // expected [1, [1]]
+      const Variant& cv = v;
+      vf_assert(cv.toList().size() == 2, "v.toList().append(v): outer size");
+      const Variant& inner = cv.toList().back();
+      vf_assert(inner.getType() == Variant::listType && inner.toList().size() == 1, "v.toList().append(v): the stored copy is the list as it was, not the list it is stored in");
+    }
+    else if(c == 1)
+    {
+      Variant one(1); v.toMap().append(String("k"), one);
+      v.toMap().append(String("self"), v);                    // expected {k:1, self:{k:1}}
+      const Variant& cv = v;
+      vf_assert(cv.toMap().size() == 2, "v.toMap().append(key, v): outer size");
+      const Variant& inner = *cv.toMap().find(String("self"));
+      vf_assert(inner.getType() == Variant::mapType && inner.toMap().size() == 1, "v.toMap().append(key, v): the stored copy is the map as it was");
+    }
+    else
+    {
+      Variant one(1); v.toArray().append(one);
+      v.toArray().append(v);
+      const Variant& cv = v;
+      vf_assert(cv.toArray().size() == 2, "v.toArray().append(v): outer size");
+      const Variant& inner = cv.toArray()[1];
+      vf_assert(inner.getType() == Variant::arrayType && inner.toArray().size() == 1, "v.toArray().append(v): the stored copy is the array as it was");
+    }
+  }
+  vf_reach("end");
+  return 0;
+}
